@@ -63,7 +63,7 @@ Judge(r) ==
                   ELSE IF ~NothingAfterCancel(osv) THEN "P2-ran-after-cancel"
                   ELSE IF ~InOrder(osv, ocl) THEN "P5-order"
                   ELSE IF ~OutlivedAnswered500(osv, ocl) THEN "P3-outlived-not-500"
-                  ELSE IF ~BodyOnlyInTime(osv \o SelectSeq(x.sv, LAMBDA y : FALSE), ocl) THEN "P1-body-late"
+                  ELSE IF ~BodyOnlyInTime(osv, ocl) THEN "P1-body-late"
                   ELSE IF ~(NoByteAfterDeadline(ocl, U * sc0.S, TOL) /\ EndsByDeadline(osv, U * sc0.S, TOL)) THEN "P4-after-session-deadline"
                   ELSE "ok"
            \* the largest distance (ms) between an observed instant and the specified one: the measured jitter of this run
